@@ -70,7 +70,7 @@ class C01(Check):
 
     def budget(self, tier):
         q = tier == 'quick'
-        k = 1 if q else 40
+        k = 1 if q else 120
         return {'mixed': 500 * k, 'string_torture': 500 * k, 'numeric_extremes': 300 * k, 'zero_rows': 150 * k,
                 'structname_torture': 300 * k, 'headers': 200 * k, 'table_api': 200 * k, 'byteorder': 100 * k,
                 'refusal': 100 * k, 'common_names': 250 * k, 'format_tokens': 300 * k}
